@@ -16,6 +16,7 @@ type Plan struct {
 	Clients   [][]Call       `json:"clients"`
 	Churn     int            `json:"churn,omitempty"`           // C12: extra calls executed before handed-out strings are re-read
 	Cold      bool           `json:"cold_process,omitempty"`    // run as the first thing of a fresh OS process: every lazily filled package-level table of the library is cold
+	Bystander int            `json:"bystander_ops,omitempty"`   // C11: an extra client works on an LRU cache of its own meanwhile (instances must not share state)
 	Young     bool           `json:"young_reference,omitempty"` // the references are cross-checked against a brand-new oracle process that sees the calls in reverse order
 	FreshAt   int            `json:"fresh_at,omitempty"`        // 1-based index of the call of client 0 whose reference is recomputed in a fresh OS process of its own (0: none)
 	Cfg       simsync.Config `json:"cfg"`
@@ -494,6 +495,9 @@ func GenC11(r *detsim.Rand, tier string) *Plan {
 	genPoolCfg(r, &c, false)
 	c.PYields = r.Chance(1, 3)
 	p.Cfg = c
+	if r.Chance(1, 5) {
+		p.Bystander = 6 + r.Intn(20)
+	}
 	freshSample(r, p, tier)
 	return p
 }
